@@ -51,6 +51,14 @@ WRAPPERS = {
     'Constant': ('arc_swap::access::Constant<{p}>', dict(complete=True, nostrat=True)),
     'ConstantGuard': ('<arc_swap::access::Constant<{p}> as arc_swap::access::Access<{p}>>::Guard', dict(complete=True, nostrat=True)),
 }
+# special cells: a projection chain that passes through a Sync-only type reached by reference. The Map stores only
+# its access and fn pointers, so it must be Send + Sync when the access is, whatever the intermediate target type is.
+SPECIAL = {
+    'Map_through_ref|Send+Sync expected':
+        "arc_swap::access::Map<arc_swap::access::Map<std::sync::Arc<arc_swap::ArcSwapAny<std::sync::Arc<OuterRef>, arc_swap::DefaultStrategy>>, OuterRef, fn(&OuterRef) -> &SyncOnly>, SyncOnly, fn(&SyncOnly) -> &u32>",
+    'Map_user_access|Send+Sync expected':
+        "arc_swap::access::Map<FreshAccess, std::cell::Cell<u32>, fn(&std::cell::Cell<u32>) -> &std::cell::Cell<u32>>",
+}
 # wrappers over the pointee directly (Arc / Rc kinds only)
 DIRECT = {
     'DirectDeref': ('<arc_swap::ArcSwapAny<{p}, {s}> as arc_swap::access::Access<{x}>>::Guard', dict(complete=True)),
@@ -76,6 +84,14 @@ impl<X: ?Sized + Sync> Probe<X> { pub const SYNC: bool = true; }
 pub struct SyncOnly(std::sync::MutexGuard<'static, u32>);
 /// Neither Send nor Sync.
 pub struct Neither(*const u8, std::cell::Cell<u32>);
+/// Send + Sync although it leads (by reference) to a Sync-only type.
+pub struct OuterRef(&'static SyncOnly);
+/// A thread-safe user Access producing a fresh non-Sync value on every load.
+pub struct FreshAccess;
+impl arc_swap::access::Access<std::cell::Cell<u32>> for FreshAccess {
+    type Guard = Box<std::cell::Cell<u32>>;
+    fn load(&self) -> Self::Guard { Box::new(std::cell::Cell::new(0)) }
+}
 
 // sanity of the probe itself (if these fail the idiom is broken, not arc-swap)
 const _: () = assert!(Probe::<u32>::SEND && Probe::<u32>::SYNC, "SELFTEST|u32");
@@ -133,6 +149,10 @@ def gen_matrix(features):
             cell = 'CELL|%s|%s' % (name, on)
             names.append(cell)
             lines.append('const _: () = assert!(%s, "%s");' % (expr, cell))
+    for name, w in SPECIAL.items():
+        cell = 'CELL|%s' % name
+        names.append(cell)
+        lines.append('const _: () = assert!(Probe::<%s>::SEND && Probe::<%s>::SYNC, "%s");' % (w, w, cell))
     return '\n'.join(lines) + '\n', names
 
 
